@@ -148,10 +148,21 @@ impl CraneliftCompiler {
             builder.finalize();
         }
 
+        // Verification hook: the function as this translator built it, before Cranelift touches it.
+        #[cfg(rbpf_verif)]
+        let verif_ir = format!("{}", ctx.func.display());
+
         self.module.define_function(func_id, &mut ctx).unwrap();
         self.module.finalize_definitions().unwrap();
         self.module.clear_context(&mut ctx);
 
+        #[cfg(rbpf_verif)]
+        {
+            let mut program = CraneliftProgram::new(self.module, func_id);
+            program.verif_ir = verif_ir;
+            Ok(program)
+        }
+        #[cfg(not(rbpf_verif))]
         Ok(CraneliftProgram::new(self.module, func_id))
     }
 
@@ -1240,6 +1251,10 @@ pub struct CraneliftProgram {
     module: ManuallyDrop<JITModule>,
 
     main_id: FuncId,
+
+    /// Verification hook: textual Cranelift IR of the function handed to the code generator.
+    #[cfg(rbpf_verif)]
+    verif_ir: String,
 }
 
 impl CraneliftProgram {
@@ -1247,7 +1262,15 @@ impl CraneliftProgram {
         Self {
             module: ManuallyDrop::new(module),
             main_id,
+            #[cfg(rbpf_verif)]
+            verif_ir: String::new(),
         }
+    }
+
+    /// Verification hook: textual Cranelift IR of the function handed to the code generator.
+    #[cfg(rbpf_verif)]
+    pub(crate) fn verif_ir(&self) -> &str {
+        &self.verif_ir
     }
 
     /// We shouldn't allow this function pointer to be exposed outside of this
